@@ -601,11 +601,19 @@ def _r2_coercion(ctx, m0: _Member, sets: Set[str]):
     in_loop = {id(x) for st in loop.body for x in ast.walk(st)}
     # names through which a SET value travels to the rendering (`typed = f(val)`; `val = d[k]`): backwards closure
     vn: Set[str] = set(sh.value_names)
+    # (names computed from the loop column are keys, not values; `c` is also a comprehension variable of the warning text)
+    colnames = {C}
+    for _ in range(3):
+        for nm in list(m.roots.binds):
+            ds = _local_defs(f.node, nm)
+            if nm not in colnames and ds and all((dotted(d) or "").split(".")[0] in colnames and "()" not in (dotted(d) or "()") for d in ds):
+                colnames.add(nm)            # `col_key = c.key`, `found = col_key`
+    vn -= colnames
     for _ in range(4):
         for nm, v, st in name_stores(f.node):
             if nm in vn and v is not None and id(st) in in_loop:
                 vn |= {x.id for x in ast.walk(v) if isinstance(x, ast.Name) and isinstance(x.ctx, ast.Load)
-                       and (m.roots.of(x) - {"<clause>"}) and not (m.roots.plain(x) - sets) and x.id != C
+                       and (m.roots.plain(x) & sets) and x.id not in colnames
                        and any(not it for _s, _p, it in m.roots.binds.get(x.id, ()))
                        and not any(isinstance(src, (ast.Dict, ast.DictComp)) or (isinstance(src, ast.Call) and _last(call_name(src)) in ("dict", "items"))
                                    for src, _p, _it in m.roots.binds.get(x.id, ()))}
@@ -687,7 +695,7 @@ def _r2_coercion(ctx, m0: _Member, sets: Set[str]):
         if not ({x.id for t in tg for x in ast.walk(t) if isinstance(x, ast.Name)} & vn):
             continue
         # read from the dictionary itself, not a value that is merely passed on (`value = value` of an inlined helper)
-        direct = {a for a in m.roots.of(st.value, set(vn)) if not a.startswith("key:")} & sets
+        direct = {a for a in m.roots.of(st.value, set(vn) | colnames) if not a.startswith("key:")} & sets
         if direct:
             takes.append(nd.id)
     ctx.require(takes, f"{f.key}: cannot see where the column loop takes values from {sorted(sets)}")
